@@ -126,12 +126,9 @@ def replay(states, entry, lookbacks, rng):
             for a in tracked:
                 for nlb in lbs:
                     cap = nlb if kind == "sma" else nlb + 1
-                    key = "%s_%s" % (nm[a], cap)
+                    # (the window the specification holds is used for the message only: how an implementation stores its
+                    # observations is its own business - what C16 states is the VALUE of each signal)
                     exp_w = [float(x) for x in fget(asdict(win[a])[kind], nlb)] if a in win else []
-                    got_w = [float(x) for x in sobj.buffers.prices.get(key, [])]
-                    if got_w != exp_w:
-                        out.append((k, "window", "%s window (%s, lookback %d) %s, expected %s" % (kind, a, nlb, got_w, exp_w)))
-                        continue
                     if not exp_w:
                         continue           # nothing supplied yet: the moving average is undefined
                     r = fget(asdict(sig[a])[kind], nlb)
@@ -159,14 +156,32 @@ def _cadence_job(job):
         sys.path.insert(0, REPO)
     from . import session_rig as sr
     from .engine_twin import signals_factory
-    out = sr.run_real(c, random.Random(sd), signals_factory=signals_factory("x", 40), keep_session=True)
+    log = {}
+
+    def recording_factory(start, universe, dh):
+        """The three signal classes with `append` (the documented way a signal is fed) recorded: what each signal RECEIVES
+        is observed without looking at how it stores it."""
+        from qstrader.signals.momentum import MomentumSignal
+        from qstrader.signals.signals_collection import SignalsCollection
+        from qstrader.signals.sma import SMASignal
+        from qstrader.signals.vol import VolatilitySignal
+
+        def rec(cls, name):
+            class Recording(cls):
+                def append(self, asset, price):
+                    log.setdefault(name, {}).setdefault(asset, []).append(float(price))
+                    return super(Recording, self).append(asset, price)
+            return Recording
+        sig = {"momentum": rec(MomentumSignal, "momentum")(start, universe, lookbacks=[40]),
+               "sma": rec(SMASignal, "sma")(start, universe, lookbacks=[2, 42]),
+               "vol": rec(VolatilitySignal, "vol")(start, universe, lookbacks=[41])}
+        return SignalsCollection(sig, dh)
+    out = sr.run_real(c, random.Random(sd), signals_factory=recording_factory, keep_session=True)
     sess = out.extra.pop("session", None)
     res = dict(failure=out.failure, windows={})
     if sess is not None and sess.signals is not None:
         for name in ("momentum", "sma", "vol"):
-            sig = sess.signals[name]
-            res["windows"][name] = dict(assets=list(sig.assets),
-                                        prices=dict((k, [float(x) for x in v]) for k, v in sig.buffers.prices.items()))
+            res["windows"][name] = dict(fed=log.get(name, {}))
         res["warmup"] = sess.signals.warmup
     return res
 
@@ -221,14 +236,13 @@ def session_cadence(rep, w, rng, n, sd):
                 wdw = got["windows"].get(name)
                 if wdw is None:
                     continue
-                key = "EQ:%s_%d" % (a, cap)
-                have = wdw["prices"].get(key, [])
-                want = stream[-cap:] if stream else []
+                have = wdw["fed"].get("EQ:%s" % a, [])
+                want = stream
                 if not _same_floats(have, want):
                     when = "late-entrant" if c["entry"].get(a, -1) > c["start"] else "member-from-start"
                     rep.violation("signals|session-cadence|" + when,
-                                  "after the backtest the %s window of %s (cap %d) holds %s, but the closes it must have been fed are %s; "
-                                  "configuration %s" % (name, a, cap, have, want, es._brief(c)), dict(config=c, asset=a, signal=name))
+                                  "during the backtest the %s signal was fed %s for %s, but the closes it must receive (one per business day "
+                                  "since it entered) are %s; configuration %s" % (name, have, a, want, es._brief(c)), dict(config=c, asset=a, signal=name))
                     break
     return len(cfgs), nobs
 
